@@ -7,7 +7,7 @@ from rules.c06 import pattern_templates
 LEVEL = "other"
 MIN_OBLIGATIONS = 14
 THOROUGH_CONFIGS = ("headeronly",)
-TECHNIQUE = "ordering (dominance / post-dominance) of the file operations of rotate() and compressFile() on the CFG projected on each operation's success or failure; destructive-call allow-list scoped by reachability; open-mode constant folding; the next-index listing rule (no wildcard name filter from the file name) shared"
+TECHNIQUE = "ordering (dominance / post-dominance) of the file operations of rotate() and compressFile() on the CFG projected on each operation's success or failure; destructive-call allow-list scoped by reachability; open-mode constant folding; the next-index listing rule (no wildcard name filter from the file name) shared; retention executed by cases once more per removal call with that call failing: no file outside the ones the limit asks for is handed to a removal; compressFile may remove its own incomplete <parameter>.gz on a path that keeps the rotated file"
 LEVEL_TEXT = ("A crash-consistency argument is an ordering argument, which the CFG decides for every crash point and every single failure at once: flushed records are always in at least one "
               "complete file because close precedes rename, compression runs only after a successful rename and removes the original only after the compressed copy is closed, failure to "
               "open either file returns before anything destructive, the active file is reopened (append, no truncate) on every path including the failed rename, retention runs only after "
